@@ -148,9 +148,15 @@ fn round_bytes(bytes: &mut [u8], data_type: &DataType, keepbits: u32) -> Result<
             Ok(())
         }
         DataType::Float16 | DataType::BFloat16 => {
+            // The mantissa has 10 bits (float16) or 7 bits (bfloat16)
+            let mantissa_bits = if matches!(data_type, DataType::BFloat16) {
+                7
+            } else {
+                10
+            };
             let round = |chunk: &mut [u8]| {
                 let element = u16::from_ne_bytes(chunk.try_into().unwrap());
-                let element = u16::to_ne_bytes(round_bits16(element, keepbits, 10));
+                let element = u16::to_ne_bytes(round_bits16(element, keepbits, mantissa_bits));
                 chunk.copy_from_slice(&element);
             };
             bytes.chunks_exact_mut(2).for_each(round);
